@@ -4,4 +4,4 @@ From Tickit Require Import RectDefs WinRectSet WinDefs WinHist WinSpec WinReDefs
 Extraction "mC14.ml" step run m_init t_find app_scroll app_base
   pol_accept pol_refuse pol_mock pol_fullwidth pol_script no_defects
   compose owner c01_checkb c02_cells_checkb c02_rects_checkb cursor_spec c15_cursor_checkb outs_before_ins c15_focus_checkb focus_spec c01_pending_checkb step_re c02_exact_checkb
-  term_key term_mouse key_order mouse_order key_spec mouse_spec drag_init ievs_eqb c14_rest_checkb c14_rest_set_checkb c15_show_checkb step2 c02_rects_in_checkb c02_selfmove_checkb.
+  term_key term_mouse key_order mouse_order key_spec mouse_spec drag_init ievs_eqb c14_rest_checkb c14_rest_set_checkb c15_show_checkb c15_hide_checkb c15_links_kept_checkb c14_closed_silent_checkb iev_win step2 c02_rects_in_checkb c02_selfmove_checkb c02_hide_order_checkb.
